@@ -341,12 +341,13 @@ func noPackSize(items []core.Item) []core.Item {
 }
 
 // responsePackets: one generated server response for a channel, cut into packets.
-func responsePackets(g *pk.Gen, channel int, cutProb int, packsize bool) []core.Pkt {
+func responsePackets(g *pk.Gen, channel int, cutProb int, packsize bool, pre ...core.Item) []core.Pkt {
 	for {
 		items := core.Response(g)
 		if !packsize {
 			items = noPackSize(items)
 		}
+		items = append(append([]core.Item{}, pre...), items...)
 		msg := core.Stream(items)
 		if len(msg) == 0 {
 			continue
